@@ -137,6 +137,10 @@ def run(ck):
     if not quick:
         ck.apalache("AP_ScalarSub52", 2, "Scalar52::sub = (a - b) mod l for ALL reduced 52-bit-limb operands (borrow chain + masked add-back)", cinit="CSub", timeout=1500)
         ck.apalache("AP_ScalarSub52", 2, "Scalar52::add = (a + b) mod l for ALL reduced operands", cinit="CAdd", timeout=1500)
+        ck.apalache("AP_MontReduce52", 2, "Scalar52::montgomery_reduce: r < l and r * 2^260 = T (mod l), no u128 overflow, for ALL nine-limb inputs with T < l * 2^260", cinit="CIn", timeout=2400)
+    ck.apalache("AP_MontReduce52", 2, "kept counterexample: just above the documented input bound one conditional subtraction is not enough", cinit="COver", expect_violation=True)
+    if not quick:
+        pass
     backends = ["s64", "s32"] if quick else ["s64", "s32", "f64", "f32", "v2"]
     bins = build_many([(b, True, "release", ()) for b in backends], jobs=3)
     traces = []
